@@ -31,8 +31,29 @@ def positions(tier: str, seed: int) -> list[float]:
     return sorted(set(vals))
 
 
+# terms far from the origin relative to their width (|slope x inflection| > 709 for the sigmoid: a factored exponential
+# overflows; large coordinates with a small span: single-precision arithmetic loses the span)
+FAR = {
+    "Sigmoid": [[40.0, 20.0], [-100.0, -30.0], [1000.0, 1.0], [-1000.0, 1.0]],
+    "SShape": [[1000.0, 1000.5], [-20000.0, -19900.0]],
+    "ZShape": [[1000.0, 1000.5], [-20000.0, -19900.0]],
+    "Ramp": [[1000.0, 1000.5], [1000.5, 1000.0]],
+    "Concave": [[1000.0, 1000.5], [1000.5, 1000.0]],
+    "Arc": [[1000.0, 1000.5], [1000.5, 1000.0]],
+    "Gaussian": [[1000.0, 0.25]],
+    "Bell": [[1000.0, 0.25, 2.0]],
+    "Triangle": [[1000.0, 1000.25, 1000.5]],
+    "SigmoidDifference": [[1000.0, 4.0, 8.0, 1000.5]],
+    "SigmoidProduct": [[1000.0, 4.0, -8.0, 1000.5]],
+}
+
+
 def param_sets(cls: str, tier: str, seed: int) -> list[list[float]]:
-    """All valid parameter tuples of the term class over the position alphabet."""
+    """All valid parameter tuples of the term class over the position alphabet (plus the far-from-origin ones)."""
+    return _param_sets(cls, tier, seed) + FAR.get(cls, [])
+
+
+def _param_sets(cls: str, tier: str, seed: int) -> list[list[float]]:
     V = positions(tier, seed)
     small = sorted(set(DYADIC[1:6] + DECIMAL[:3] + [positions(tier, seed)[3]]))
     widths = [0.25, 0.5, 1.0, 2.0, 0.3] + ([0.7, 4.0] if tier == "thorough" else [])
@@ -86,6 +107,11 @@ def param_sets(cls: str, tier: str, seed: int) -> list[list[float]]:
             [0.1, 0.0, 0.3, 0.7, 0.7, 0.3, 0.9, 1.0],
             [0.0, 1.0, 0.5, 0.0, 1.0, 1.0],
             [-0.5, 0.25, 0.0, 0.25, 0.25, 1.0],
+            # vertical edges: consecutive pairs with the same x (the value AT a repeated x is left open, see c03)
+            [0.0, 0.0, 1.0, 0.0, 1.0, 1.0, 2.0, 1.0],
+            [0.0, 0.25, 0.5, 0.25, 0.5, 1.0, 0.5, 0.5, 1.0, 0.0],
+            [0.0, 0.25, 0.0, 0.5, 1.0, 1.0],
+            [0.0, 0.25, 1.0, 0.5, 1.0, 1.0],
         ]
     if cls == "Constant":
         return [[0.5], [-2.0], [1.5], [0.0]]
